@@ -492,4 +492,28 @@ def World.next (w : World) (a : WAct) : World :=
 
 def World.run (w : World) (acts : List WAct) : World := acts.foldl World.next w
 
+/-! ### compare-and-swap retries
+
+The stores update the ring key by compare-and-swap: the handler (`f`) computes a new ring from the value read; if somebody
+else wrote in between, the write is refused and `f` runs AGAIN on the fresh value, until an attempt is not interfered
+with. `reads` = the values the successive attempts read; all attempts but the last are discarded — a handler must decide
+from its argument alone, never from what an earlier attempt saw or generated. -/
+def casRetry (f : Option Desc → Res) : List (Option Desc) → Option Res
+  | [] => none
+  | [d] => some (f d)
+  | _ :: ds => casRetry f ds
+
+/-- the shape that is NOT allowed (seen as a seeded change of `BasicLifecycler.registerInstance`): state and tokens are
+computed on the FIRST value read and published on whatever ring the last attempt reads -/
+def casReuseFirst (f : Option Desc → Res) (id : String) : List (Option Desc) → Option Res
+  | [] => none
+  | first :: rest =>
+    let r := f first
+    match r.out, (first :: rest).getLast? with
+    | .write d1, some last =>
+      (match Desc.get? d1 id with
+       | some i => some { r with out := .write (put (last.getD []) i) }
+       | none => some r)
+    | _, _ => some r
+
 end C08
